@@ -131,6 +131,22 @@ CHECKS.update({
             BASE_NOTE + " Oracle: installed zic 2.36 on the identical text; zones carrying a truncation note are excluded (counted).", "3/C03"),
 })
 
+CHECKS.update({
+    "C04": ("exploration",
+            "differential runtime monitor: Python ZoneSpecifier vs the C++ extended processor on the same decoded table data; option-independence monitor",
+            "Every zone of zonedbx (quick: 60 seed-chosen) is read back through the C++ brokers and decoded into the Python data "
+            "model; both implementations answer the same instants (every transition +-{0,1,60} s, year boundaries, a grid) and "
+            "local date-times (+-200 min around every transition); the eight option combinations are compared with the default.",
+            BASE_NOTE + " Each implementation is the other's oracle; zic is consulted by C01/C03.", "3/C04"),
+    "C12": ("translation_validation",
+            "encode with the real generator, compile, decode through the library's brokers, compare; regenerate shipped tables with tzcompiler.py and compare text and fields",
+            "Programs: two synthetic databases (basic, extended) spanning the full product of admissible values per encoded field "
+            "(9,006 eras and 9,006 rules) plus the two shipped databases regenerated from their recorded source lines. Every field "
+            "is read back through the brokers from the compiled tables (ASan+UBSan); shipped files must equal generator output "
+            "line by line.",
+            BASE_NOTE + " The product covers each field's value set, not all cross-field combinations.", "3/C12"),
+})
+
 PLANNED = {
 }
 
